@@ -33,6 +33,11 @@ SEEDS = [
     "mutation M($b: Int = 1) { inc(by: $b) ...MF } fragment MF on Mutation { set(v: \"s\") { id } }",
     "{ __schema { queryType { name } } __type(name: \"A\") { name } num }",
     "{ lst two hello a { echo } }",
+    # operations, fragments, variables, aliases and types live in separate namespaces: the same name in several of them is legal
+    "query Main { ...Detail } query Detail($id: Int!) { need(x: $id) } fragment Detail on Query { num }",
+    "query A($A: Int) { A: a { ...A } hello(n: $A) } fragment A on A { A: id }",
+    "{ ...None } fragment None on Query { num }",
+    "query Query { ...Query } fragment Query on Query { Query: num }",
 ]
 
 
